@@ -708,6 +708,30 @@ func (v *View) Resolve(op Op) *TxMeta {
 		default:
 			typ, data = transaction.TypeSellAllSwapPool, transaction.SellAllSwapPoolDataV260{Coins: r, MinimumValueToBuy: op.v(1).resolve(big.NewInt(0))}
 		}
+	case "sellusdt", "sellbip":
+		// trade on the BIP/USDT pool; the amount is a fraction of the pool's reserve of the coin sold
+		from, to := types.CoinID(types.USDTID), types.CoinID(0)
+		if op.K == "sellbip" {
+			from, to = to, from
+		}
+		ref := big.NewInt(0)
+		for _, p := range v.S.Pools {
+			if p.Coin0 == 0 && p.Coin1 == uint64(types.USDTID) {
+				ref = bi(p.Reserve1)
+				if op.K == "sellbip" {
+					ref = bi(p.Reserve0)
+				}
+			}
+		}
+		// the richest holder of the coin sells
+		best := sender
+		for i := 0; i < v.NAcct; i++ {
+			if v.S.Balance(Acct(i).Addr, uint64(from)).Cmp(v.S.Balance(best, uint64(from))) > 0 {
+				best = Acct(i).Addr
+			}
+		}
+		asAddr(best, 0)
+		typ, data = transaction.TypeSellSwapPool, transaction.SellSwapPoolDataV260{Coins: []types.CoinID{from, to}, ValueToSell: op.v(0).resolve(ref), MinimumValueToBuy: big.NewInt(0)}
 	case "addorder":
 		c0, c1 := v.pool(op.x(0))
 		sellv := op.v(0).resolve(bal(c0))
